@@ -1,7 +1,7 @@
 (* Pinned statements of C03 (generated once by tools/mkpins.py from coq/props/C03.v, then committed). *)
 From DV Require Import Model.Base Model.NameCheck Model.Parser Model.Header Model.Readers
   Spec.NameSpec Spec.PacketSpec Spec.RecordSpec
-  Proofs.Hoare Proofs.ParserTotal Proofs.ParserInv Proofs.ReadersAgree Proofs.ReadersLabels Proofs.WalkValues Proofs.WalkSkip props.C03.
+  Proofs.Hoare Proofs.ParserTotal Proofs.ParserInv Proofs.ReadersAgree Proofs.ReadersLabels Proofs.WalkValues Proofs.WalkSkip Proofs.EdnsFacts props.C03.
 Check (C03_skip_name_agrees : forall (p : bytes) (off e : nat),
   check_compressed_name p off = Ok e -> e < length p -> skip_name p off = Ok e).
 Print Assumptions C03_skip_name_agrees.
@@ -54,6 +54,13 @@ Check (C03_question_cursor : forall p v, bytes_ok p -> parse p = Ok v ->
     it_rr_type v it = Ok t /\ it_rr_class v it = Ok c /\
     q_next v it = Ok None).
 Print Assumptions C03_question_cursor.
+Check (C03_option_cursor : forall p v, bytes_ok p -> parse p = Ok v ->
+  match pp_offset_edns v with
+  | None => walk_opts v = Ok []
+  | Some st => exists e l, opts_read p st e l /\ e <= length p /\ pp_edns_count v = N.of_nat (length l) /\
+                           walk_opts v = Ok l
+  end).
+Print Assumptions C03_option_cursor.
 Check (C03_reading_unique : forall p off l e, records_at p off l e ->
   forall l' e', records_at p off l' e' -> length l = length l' -> l = l' /\ e = e').
 Print Assumptions C03_reading_unique.
